@@ -2219,8 +2219,10 @@ fn main() {
             rep.case("both_modes_same_primitive_kind", &format!("fn set_tags(seen: HashSet<String>, tags: Vec<String>, ids: BTreeSet<u32>, nums: Vec<u32>); fn z_later(list: Vec<String>, flags: Vec<bool>, marks: HashSet<bool>): {}.{}", cmd, key), &|| {
                 let files = files.as_ref().map_err(|e| e.clone())?;
                 let sch = zod_field(files.get("types.ts").ok_or("no types.ts")?, cmd, key).ok_or(format!("UNPARSED: {}Schema has no key {}", cmd, key))?;
-                if !sch.starts_with("z.array(") { return Err(format!("{}.{} is a Vec (declared T[] in plain mode) but its schema is `{}`, which accepts no array", cmd, key, sch)); }
-                Ok(sch)
+                // array-shaped in either spelling; a set / map / record schema accepts no array; anything else is a rendering this reader does not know
+                if sch.starts_with("z.array(") || sch.contains(".array()") { return Ok(sch); }
+                if sch.starts_with("z.set(") || sch.starts_with("z.map(") || sch.starts_with("z.record(") { return Err(format!("{}.{} is a Vec (declared T[] in plain mode) but its schema is `{}`, which accepts no array", cmd, key, sch)); }
+                Err(format!("UNPARSED: schema of {}.{} is `{}`", cmd, key, sch))
             });
         }
     }
